@@ -636,7 +636,7 @@ def has_method(obj, name):
     if isinstance(obj, SList):
         return name in _LIST_METHODS
     if isinstance(obj, SymList):
-        return name in ('append',)
+        return name in ('append', 'copy')
     if isinstance(obj, SDict):
         return name in _DICT_METHODS
     if isinstance(obj, SSet):
@@ -674,6 +674,10 @@ def call_method(I, obj, name, args, kwargs, node):
     if isinstance(obj, SList):
         return list_method(I, obj, name, args, kwargs, node)
     if isinstance(obj, SymList):
+        if name == 'copy' and not args and not kwargs:
+            c = obj.snapshot()
+            c.origin = None
+            return c
         if name == 'append' and len(args) == 1 and not kwargs:
             if getattr(I, 'generic_depth', 0) or I.spec_depth:
                 raise Unsupported("mutation of a list inside a specification")
@@ -815,6 +819,9 @@ def list_method(I, L, name, args, kwargs, node):
             return None
         if isinstance(args[0], SList):
             L.items.extend(args[0].items)
+            return None
+        if isinstance(args[0], SymList):
+            L.items.append(ListSeg(args[0].snapshot()))
             return None
         L.items.extend(I.iterate(args[0], node))
         return None
